@@ -253,16 +253,6 @@ def estRun (budget : Nat) : Report Nat Int := @solve Nat Int intScale estToy #[4
 section EST
 variable {S D : Type}
 
-theorem solve_final [WScale D] (cfg : Cfg S D) (starts : Array S) (sc : Script S D) (budget : Nat) :
-    (solve cfg starts sc budget).final =
-      if (initSt cfg starts sc).1.tree.size = 0 then (initSt cfg starts sc).1
-      else loop cfg budget (initSt cfg starts sc).1 := by
-  unfold solve
-  simp only
-  split
-  · rfl
-  · split <;> rfl
-
 /-- **EST tree invariant**, for every configuration, start set, script (draws, sampler and goal answers) and
 interruption point (`budget`): every root is a problem-definition start that satisfies the bounds and is valid;
 every other motion's parent was inserted earlier and `checkMotion(parent, child)` returned true. -/
@@ -276,14 +266,6 @@ theorem est_tree_inv [WScale D] (cfg : Cfg S D) (starts : Array S) (sc : Script 
 
 example : TreeInv estToy #[4, 30] (estRun 6).final.tree := @est_tree_inv Nat Int intScale estToy #[4, 30] estScript 6
 example : (estRun 6).final.tree.size = 4 := by decide
-
-theorem final_pdfInv [WScale D] (cfg : Cfg S D) (hw : ∀ k, WOps.lt (cfg.wNew k) (WOps.zero : D) = false)
-    (starts : Array S) (sc : Script S D) (budget : Nat) : PdfInv cfg (solve cfg starts sc budget).final := by
-  rw [solve_final]
-  have hi := initSt_pdfInv cfg hw starts sc
-  split
-  · exact hi
-  · exact loop_pdfInv cfg hw budget _ hi
 
 /-- **The PDF follows the tree** [AF], for every script and interruption point: the PDF holds exactly one
 element per tree motion (as many elements as motions, the stored handles are exactly the motion indices,
@@ -317,8 +299,10 @@ theorem est_pdf_sync [WScale D] (cfg : Cfg S D) (hw : ∀ k, WOps.lt (cfg.wNew k
 
 theorem estToy_hw : ∀ k, @WOps.lt Int intScale.toWOps (estToy.wNew k) (@WOps.zero Int intScale.toWOps) = false := by
   intro k
-  simp only [estToy, intScale, decide_eq_false_iff_not, Int.not_lt]
-  exact Int.ediv_nonneg (by omega) (by omega)
+  show decide ((60 : Int) / (Int.ofNat k + 1) < 0) = false
+  have : (0 : Int) ≤ 60 / (Int.ofNat k + 1) := Int.ediv_nonneg (by omega) (by have := Int.natCast_nonneg k; simp only [Int.ofNat_eq_natCast]; omega)
+  simp only [decide_eq_false_iff_not, Int.not_lt]
+  exact this
 
 example := @est_pdf_sync Nat Int intScale estToy estToy_hw #[4, 30] estScript 6
 example : (estRun 6).final.pdf.tree = [#[58, 29, 20, 60], #[87, 80], #[167]] ∧ (estRun 6).final.pdf.data = #[0, 1, 2, 3] := by
@@ -338,23 +322,51 @@ theorem est_weight_is_inverse_count {K : Type} [Field K] [LinearOrder K] [IsStri
     push_cast
     ring
 
+open Exact in
+/-- [EX] **the weight follows the current neighbour count**: over an ordered field, with the formulas as coded,
+at every interruption point of every run the PDF weight of motion `i` is `1 / (c + 1)` where `c` is the number of
+tree motions currently in a neighbour relation with `i` (found by `i` at its insertion, or that found `i` at theirs). -/
+theorem est_weight_follows_count {K : Type} [Field K] [LinearOrder K] [IsStrictOrderedRing K] (cfg : Cfg S K)
+    (hnew : cfg.wNew = fun (k : Nat) => 1 / ((k : K) + 1)) (hupd : cfg.wUpd = fun w => w / (w + 1))
+    (starts : Array S) (sc : Script S K) (budget : Nat) :
+    ∀ i, i < (solve cfg starts sc budget).final.tree.size →
+      (solve cfg starts sc budget).final.pdf.getWeight i =
+        some (1 / (((earlier cfg (solve cfg starts sc budget).final.tree i +
+          later cfg (solve cfg starts sc budget).final.tree i : Nat) : K) + 1)) := by
+  intro i hi
+  have hw : ∀ k, WOps.lt (cfg.wNew k) (WOps.zero : K) = false := by
+    intro k
+    rw [hnew]
+    show decide ((1 : K) / ((k : K) + 1) < 0) = false
+    have : (0 : K) ≤ 1 / ((k : K) + 1) := by positivity
+    simp only [decide_eq_false_iff_not, not_lt]
+    exact this
+  have := (est_pdf_sync cfg hw starts sc budget).2.2.2.2 i hi
+  rw [this, hnew, hupd, est_weight_is_inverse_count]
+
+/-- non-vacuity: a configuration over ℚ with the coded formulas (everything is everybody's neighbour) -/
+def estRat : Cfg Nat ℚ where
+  dist _ _ := 0
+  lt a b := decide (a < b)
+  le a b := decide (a ≤ b)
+  inf := 1000
+  radius := 1
+  goalBias := 0
+  canSample := true
+  rejectP _ := 0
+  wNew k := 1 / ((k : ℚ) + 1)
+  wUpd w := w / (w + 1)
+  bounds _ := true
+  valid _ := true
+  checkMotion _ _ := true
+  goalDist _ := 5
+  threshold := 1
+
+open Exact in
+example := est_weight_follows_count estRat rfl rfl #[1, 2, 3] { us := [0, 1, 1], nears := [(true, 7)] } 1
+
 example : (fun w : ℚ => w / (w + 1))^[3] (1 / ((2 : ℕ) + 1)) = 1 / 6 := by
   rw [est_weight_is_inverse_count 2 3]; norm_num
-
-theorem sample_ok_mem [WScale D] (s : Pdf D) (r : D) (h : Nat) (hs : s.sample r = .ok h) : h ∈ s.data := by
-  unfold Pdf.sample at hs
-  split at hs
-  · cases hs
-  · split at hs
-    · cases hs
-    · split at hs
-      · cases hs
-      · split at hs
-        · cases hs
-        · next h' hd =>
-          simp only [SampleRes.ok.injEq] at hs
-          subst hs
-          exact Array.mem_of_getElem? hd
 
 /-- **The motion `pdf_.sample` selects is a tree motion** [AF]: at every interruption point of every run
 with a non-empty tree, for every value `r` whatsoever, `pdf_.sample(r)` never reads out of range, never
